@@ -17,6 +17,8 @@ namespace smt
     // called at the very beginning of sat_core::record with the clause being recorded..
     typedef void (*record_hook)(const sat_core &, const std::vector<lit> &);
     SMT_EXPORT extern record_hook on_record;
+    // called at the very beginning of sat_core::new_clause with the clause as given by the caller..
+    SMT_EXPORT extern record_hook on_new_clause;
 
     // storage of the tableau rows: when set, 'new row' and 'delete row' go through these two (the address of a row
     // decides where it sits in the watch lists, which are hashed by address, hence the order in which rows propagate)..
